@@ -116,6 +116,112 @@ fn check_case(run: &Run, st: &Stats, e: &Entry, k: u64, kind: &str, bytes: &[u8]
     }
 }
 
+/// The opaque fields INSIDE a ping-pong message are decoded by the ping-pong routines themselves, against the
+/// receiver's state: a field that carries its canonical encoding followed by extra bytes (or cut short) is a
+/// second encoding of the same message and must be refused by `helper_initialized` / `leader_continued` /
+/// `helper_continued`, for every field of every message of a Poplar1 (two rounds) and a Prio3 exchange.
+fn pingpong_inner_fields(run: &Run) {
+    use prio::codec::Encode;
+    use prio::idpf::IdpfInput;
+    use prio::topology::ping_pong::{PingPongMessage, PingPongState, PingPongTopology};
+    use prio::vdaf::poplar1::{Poplar1, Poplar1AggregationParam};
+    use prio::vdaf::prio3::Prio3;
+    use prio::vdaf::test_utils::TestVectorClient;
+    use prio::vdaf::xof::XofTurboShake128;
+    use prio::vdaf::Aggregator;
+    use pvh::engine::catch;
+    fn variants(m: &PingPongMessage) -> Vec<(String, PingPongMessage)> {
+        let mut out = vec![];
+        let alter = |v: &Vec<u8>| -> Vec<(&'static str, Vec<u8>)> {
+            let mut a = vec![("+00", [v.clone(), vec![0]].concat()), ("+8 bytes", [v.clone(), vec![0xA5; 8]].concat()), ("+32 bytes", [v.clone(), vec![0; 32]].concat())];
+            if !v.is_empty() {
+                a.push(("-1 byte", v[..v.len() - 1].to_vec()));
+                a.push(("doubled", [v.clone(), v.clone()].concat()));
+            }
+            a
+        };
+        match m {
+            PingPongMessage::Initialize { verifier_share } => {
+                for (l, v) in alter(verifier_share) {
+                    out.push((format!("Initialize.verifier_share {l}"), PingPongMessage::Initialize { verifier_share: v }));
+                }
+            }
+            PingPongMessage::Continue { verifier_message, verifier_share } => {
+                for (l, v) in alter(verifier_message) {
+                    out.push((format!("Continue.verifier_message {l}"), PingPongMessage::Continue { verifier_message: v, verifier_share: verifier_share.clone() }));
+                }
+                for (l, v) in alter(verifier_share) {
+                    out.push((format!("Continue.verifier_share {l}"), PingPongMessage::Continue { verifier_message: verifier_message.clone(), verifier_share: v }));
+                }
+            }
+            PingPongMessage::Finish { verifier_message } => {
+                for (l, v) in alter(verifier_message) {
+                    out.push((format!("Finish.verifier_message {l}"), PingPongMessage::Finish { verifier_message: v }));
+                }
+            }
+        }
+        out
+    }
+    fn drive<V>(run: &Run, name: &str, vdaf: &V, vk: &[u8; 32], param: &V::AggregationParam, nonce: &[u8; 16], ps: &V::PublicShare, shares: &[V::InputShare])
+    where
+        V: Aggregator<32, 16> + PingPongTopology<32, 16, PingPongContinuation = prio::topology::ping_pong::PingPongContinuation<32, 16, V>>,
+        V::VerifyState: Clone,
+    {
+        let ctx = b"c07 pp";
+        let judge = |what: &str, label: &str, accepted: bool| {
+            run.count("evaluations", 1);
+            run.count("pingpong_inner_field_cases", 1);
+            if accepted {
+                run.fail(&format!("pingpong_inner/{name}/{}", label.split(' ').next().unwrap_or("")), &format!("{name}: {what} accepted a message whose {label}: the same message has two accepted encodings"), json!({"vdaf": name, "routine": what, "alteration": label}));
+            }
+        };
+        let Ok(Ok(lc)) = catch(|| vdaf.leader_initialized(vk, ctx, param, nonce, ps, &shares[0])) else { panic!("{name}: leader_initialized failed on an honest report") };
+        let init = lc.message.clone();
+        for (label, m) in variants(&init) {
+            let r = catch(|| vdaf.helper_initialized(vk, ctx, param, nonce, ps, &shares[1], &m).and_then(|c| c.evaluate(ctx, vdaf)));
+            judge("helper_initialized", &label, matches!(r, Ok(Ok(_))));
+        }
+        let Ok(Ok(hc)) = catch(|| vdaf.helper_initialized(vk, ctx, param, nonce, ps, &shares[1], &init)) else { panic!("{name}: helper_initialized failed") };
+        let Ok(Ok(hs)) = catch(|| hc.evaluate(ctx, vdaf)) else { panic!("{name}: helper continuation failed") };
+        let (helper_state, to_leader) = match hs {
+            PingPongState::Continued(c) => (Some(c.verifier_state.clone()), c.message.clone()),
+            PingPongState::FinishedWithOutbound { message, .. } => (None, message),
+            PingPongState::Finished { .. } => return,
+        };
+        for (label, m) in variants(&to_leader) {
+            let st = lc.verifier_state.clone();
+            let r = catch(|| vdaf.leader_continued(ctx, param, st, &m).and_then(|c| c.evaluate(ctx, vdaf)));
+            judge("leader_continued", &label, matches!(r, Ok(Ok(_))));
+        }
+        let st = lc.verifier_state.clone();
+        let Ok(Ok(lc2)) = catch(|| vdaf.leader_continued(ctx, param, st, &to_leader).and_then(|c| c.evaluate(ctx, vdaf))) else { panic!("{name}: leader_continued failed on the honest message") };
+        if let (Some(hst), PingPongState::FinishedWithOutbound { message, .. } | PingPongState::Continued(prio::topology::ping_pong::Continued { message, .. })) = (helper_state, lc2) {
+            for (label, m) in variants(&message) {
+                let st = hst.clone();
+                let r = catch(|| vdaf.helper_continued(ctx, param, st, &m).and_then(|c| c.evaluate(ctx, vdaf)));
+                judge("helper_continued", &label, matches!(r, Ok(Ok(_))));
+            }
+        }
+        let _ = init.get_encoded();
+    }
+    let tape = pvh::engine::tape::Tape::Seeded(run.seed ^ 0xC707);
+    for (bits, level) in [(3usize, 1usize), (3, 2), (1, 0)] {
+        let vdaf: Poplar1<XofTurboShake128, 32> = Poplar1::new(bits);
+        let input: Vec<bool> = (0..bits).map(|i| i % 2 == 0).collect();
+        let nonce: [u8; 16] = tape.array(1);
+        let (ps, shares) = vdaf.shard_with_random(b"c07 pp", &IdpfInput::from_bools(&input), &nonce, &tape.bytes(2, 32 + 96)).unwrap();
+        let param = Poplar1AggregationParam::try_from_prefixes(vec![IdpfInput::from_bools(&input[..=level])]).unwrap();
+        drive(run, &format!("Poplar1(bits={bits},level={level})"), &vdaf, &tape.array(3), &param, &nonce, &ps, &shares);
+    }
+    let nonce: [u8; 16] = tape.array(4);
+    let vdaf = Prio3::new_count(2).unwrap();
+    let (ps, shares) = vdaf.shard_with_random(b"c07 pp", &true, &nonce, &tape.bytes(5, 64)).unwrap();
+    drive(run, "Prio3Count", &vdaf, &tape.array(6), &(), &nonce, &ps, &shares);
+    let vdaf = Prio3::new_histogram(2, 4, 2).unwrap();
+    let (ps, shares) = vdaf.shard_with_random(b"c07 pp", &2usize, &nonce, &tape.bytes(7, 128)).unwrap();
+    drive(run, "Prio3Histogram", &vdaf, &tape.array(8), &(), &nonce, &ps, &shares);
+}
+
 fn main() {
     let run = Run::from_args("C07", Level::Exploration);
     let lim = run.pick(Limits::quick(), Limits::thorough());
@@ -137,6 +243,7 @@ fn main() {
     for f in &cat.findings {
         run.fail(&f.key, &f.what, f.case.clone());
     }
+    pingpong_inner_fields(&run);
     for n in &cat.notes {
         eprintln!("note: {n}");
     }
